@@ -28,6 +28,7 @@ DECIDED = [
     "R-C04-MSG: Message.retry/force_retry pass _prepare_retry(next_retry) to requeue; the eager retry defaults to the "
     "policy value for already_tried + 1",
     "R-C04-ROUTE (rounding): the due time of a retry is not moved earlier by its conversion for the broker (C05's rounding lattice and the whole-duration rule reused)",
+    "R-C04-STEP (stored): Redis requeue overwrites the stored parameters (HSET), so the incremented counter is what the next delivery sees",
 ]
 NOT_DECIDED = ["delivery time versus the policy value as a measured quantity", "user-supplied retry policies"]
 ASSUMPTIONS = ["attempt counting is by induction over deliveries: each delivery applies the transfer function exactly once (C02)"]
